@@ -138,6 +138,21 @@ func (t Type) isSafeElem() bool {
 	return t.isSafeStr()
 }
 
+// isSafeIn reports whether an element of dynamic type t may be printed recursively
+// inside a container whose declared element type is decl. Assignments are not
+// type-checked (x[0] = x runs for x of type [][]int), so a declared type proves
+// nothing about a container found where another type was declared: it is cut off.
+func (t Type) isSafeIn(decl Type) bool {
+	if !t.isSafeStr() {
+		return false
+	}
+	switch t.base() {
+	case TypeSlice, TypeMap:
+		return decl == TypeNil || t == decl
+	}
+	return true
+}
+
 func sliceType(value Type) Type {
 	return value<<typeShift | TypeSlice
 }
@@ -819,7 +834,7 @@ func (s *sliceT) String() string {
 func (s *sliceT) SafeStr() string {
 	var p []string
 	for _, v := range s.data {
-		if !v.t.isSafeStr() {
+		if !v.t.isSafeIn(s.valueType) {
 			return "[...]"
 		}
 		p = append(p, v.safeStr())
@@ -930,7 +945,7 @@ func (m *stringMap) String() string {
 func (m *stringMap) SafeStr() string {
 	var p []string
 	for k, v := range m.data {
-		if !v.t.isSafeStr() {
+		if !v.t.isSafeIn(m.valueType) {
 			return "map[...]"
 		}
 		p = append(p, k+":"+v.safeStr())
@@ -1024,7 +1039,7 @@ func (m *numericMap) String() string {
 func (m *numericMap) SafeStr() string {
 	var p []string
 	for k, v := range m.data {
-		if !v.t.isSafeStr() {
+		if !v.t.isSafeIn(m.valueType) {
 			return "map[...]"
 		}
 		p = append(p, Value{t: m.keyType, num: k}.String()+":"+v.safeStr())
